@@ -514,6 +514,10 @@ func Re(errBuf *strings.Builder, validName, objName, fieldName string, tv reflec
 	}
 
 	l := len(validName)
+	if splitIndex+1 >= l { // 只有一个 "'", 如: re='
+		errBuf.WriteString(GetJoinFieldErr(objName, fieldName, reErr))
+		return
+	}
 	b := make([]byte, 0, l)
 	i := splitIndex + 1
 	for ; i < l; i++ {
